@@ -272,7 +272,7 @@ func c18Lookup(name string) e2.RunFn {
 			}
 		})
 		if disk != nil {
-			disk.Stop()
+			disk.VerifCloseLog() // the writer thread was torn down with the execution
 			os.RemoveAll(dir)
 		}
 		x := &explore.Exec{Res: res}
@@ -365,12 +365,18 @@ func c18Scenarios(thorough bool, backendName string) (two, three []string) {
 		// the log-backed store is ~10x dearer per execution: one-op-per-thread pairs + mixed
 		var sub []string
 		for _, s := range two {
-			if strings.Count(s, ",") <= 2 {
+			if strings.Count(s, ",") <= 1 {
 				sub = append(sub, s)
 			}
 		}
 		two = sub
-		three = three[:len(three)/2]
+		var sub3 []string
+		for i, s := range three {
+			if i%3 == 0 {
+				sub3 = append(sub3, s)
+			}
+		}
+		three = sub3
 	}
 	return
 }
@@ -386,9 +392,9 @@ func c18(c *report.Check) {
 		fmt.Printf("scn=%s exec=%d trans=%d maxpts=%d outcomes=%d capped=%v viol=%q internal=%q in %v\n", name, st.Executions, st.Transitions, st.MaxPoints, len(st.Outcomes), st.Capped, st.Violation, st.Internal, time.Since(t0))
 		os.Exit(0)
 	}
-	tb2, tb3 := 3, 2
+	tb2, tb3 := 2, 2
 	if c.Thorough() {
-		tb2, tb3 = 4, 3
+		tb2, tb3 = 3, 3
 	}
 	var plans []e2.Plan
 	var all []string
@@ -397,7 +403,7 @@ func c18(c *report.Check) {
 		two, three := c18Scenarios(c.Thorough(), b)
 		t2, t3 := tb2, tb3
 		if b == "aof" {
-			t2, t3 = tb2-1, tb3
+			t2, t3 = 2, 2 // ~100 scheduling points per execution (writer polling): bound 3 is out of reach
 		}
 		plans = append(plans, e2.Plan{Scns: two, Bound: -1, TotalBound: t2, Batch: (len(two) + 47) / 48}, e2.Plan{Scns: three, Bound: -1, TotalBound: t3, Batch: (len(three) + 47) / 48})
 		all = append(append(all, two...), three...)
